@@ -264,6 +264,10 @@ def check_table(m, phase, fe, cfg, report):
                    "tabulated point T=%.10g fields=%s has smallest exact Hessian eigenvalue "
                    "%.4g <= 0" % (Ti, x.tolist(), emin), dict(T=float(Ti), x=x.tolist()))
             continue
+        if not (ph.Tlo < Ti < ph.Thi):
+            # inside the slack zone but beyond the exact spinodal: no critical point exists
+            # there, only the positive curvature (checked above) is required
+            continue
         # gradient: a Newton step H^-1 g measures the distance to the true critical point
         g = m.grad(x, Ti)
         try:
@@ -866,6 +870,10 @@ DIRECTED = [
     {"model": {"model": "twofield", "theta": 0.3, "unit": 0.001}, "phase": "B",
      "Tstart": 0.10400000000000001, "TMin": 0.092, "TMax": 0.11520000000000001,
      "dT": 0.00048, "rTol": 1e-06, "paranoid": False},
+    # 03e0115: exactly singular finite-difference Hessian at the spinodal -> LinAlgError
+    {"model": {"model": "quartic1", "D": 0.2, "E": 0.03, "lam": 0.1, "T0": 100.0, "g": 100.0,
+               "unit": 1000.0}, "phase": "broken", "Tstart": 85000.0, "TMin": 50000.0,
+     "TMax": 104631.60115815708, "dT": 1000.0, "rTol": 1e-08, "paranoid": False},
 ]
 
 
